@@ -164,6 +164,16 @@ def check_roundtrips(objs, codecs, what):
                 sig = f"C20/codec-raises/class={what}/codec={cname}/exc={type(e).__name__}"
                 viol.setdefault(sig, {"sig": sig, "msg": f"{type(e).__name__}: {e} for {x!r}"[:400]})
                 continue
+            # the same wire dictionary decodes to the same object again (decoding does not consume or alter it)
+            try:
+                fy2 = flatten(frm(w))
+            except Exception as e:  # noqa: BLE001
+                fy2 = {"<second-decode-raised>": f"{type(e).__name__}: {e}"[:120]}
+            if fy2 != fx and flatten(y) == fx:
+                field = sorted(k for k in set(fx) | set(fy2) if fx.get(k) != fy2.get(k))[0]
+                sig = f"C20/second-decode-of-same-dict-differs/class={what}/codec={cname}/field={_generic(field)}"
+                viol.setdefault(sig, {"sig": sig, "msg": f"{what} via {cname}: decoding the same dictionary a second time gives "
+                                                         f"{field}: {fx.get(field)!r} -> {fy2.get(field)!r}; object {x!r}"[:500]})
             fy = flatten(y)
             if fx != fy:
                 lost = sorted(k for k in fx if k not in fy)
